@@ -36,8 +36,9 @@ def _set(v):
 class Net:
     """The built scenario for one model configuration."""
 
-    def __init__(self, st: Dict[str, Any]):
+    def __init__(self, st: Dict[str, Any], noncanon: bool = False):
         self.st = st
+        self.noncanon = noncanon
         self.topo = st["topo"]
         self.zoneA, self.zoneB = st["zoneA"], st["zoneB"]
         up = st["up"]
@@ -114,10 +115,14 @@ class Net:
                 d["src_ip"] = "@A"
             elif src == {"A", "other"}:
                 d["src_ip"], d["src_wildcard_mask"] = "@A", "0.0.0.1"
+                if self.noncanon:
+                    d["src_ip"], d["src_wildcard_mask"] = "@A|5", "0.0.0.5"   # base above A, non-contiguous mask
             if dst == {"B"}:
                 d["dst_ip"] = "@B"
             elif dst == {"B", "M"}:
                 d["dst_ip"], d["dst_wildcard_mask"] = "@B", "0.0.0.3"
+                if self.noncanon:
+                    d["dst_ip"] = "@B|1"                                        # base above B inside the range
             out[i + 1] = d
         if lst["implicit"] != real_implicit:
             out[21] = {"action": lst["implicit"]}     # emulate the other implicit action by a catch-all last rule
@@ -130,10 +135,10 @@ class Net:
         def fix(o):
             if isinstance(o, dict):
                 for k, v in list(o.items()):
-                    if v == "@A":
-                        o[k] = self.ipA
-                    elif v == "@B":
-                        o[k] = self.ipB
+                    if isinstance(v, str) and v.startswith("@"):
+                        base = self.ipA if v[1] == "A" else self.ipB
+                        bits = int(v.split("|")[1]) if "|" in v else 0
+                        o[k] = str(ipaddress.IPv4Address(int(ipaddress.IPv4Address(base)) | bits))
                     else:
                         fix(v)
             elif isinstance(o, list):
@@ -166,15 +171,18 @@ class Net:
     def symbols(self, ip, wildcard) -> List[str]:
         if ip is None:
             return ["A", "B", "M", "MB", "MC", "other"]
-        from primaite.simulator.network.hardware.nodes.network.router import ip_matches_masked_range
+        # the harness' own reading of "a range given by a wildcard mask" (bits set in the mask are don't-care bits);
+        # deliberately NOT the repository's helper
+        def covers(x, base, wc):
+            x, base, wc = int(ipaddress.IPv4Address(x)), int(ipaddress.IPv4Address(base)), int(ipaddress.IPv4Address(wc))
+            return (x & ~wc & 0xFFFFFFFF) == (base & ~wc & 0xFFFFFFFF)
 
         out = []
         cands = {"A": [self.ipA], "B": [self.ipB], "M": [self.ipMA] if self.ipMA else [], "MB": [self.ipMB] if self.ipMB else [],
                  "MC": [x for x in self.ipsM if x not in (self.ipMA, self.ipMB)], "other": [self.other]}
         for sym, ips in cands.items():
             for x in ips:
-                xi = ipaddress.IPv4Address(x)
-                hit = (xi == ip) if not wildcard else ip_matches_masked_range(ip_to_check=xi, base_ip=ip, wildcard_mask=wildcard)
+                hit = (ipaddress.IPv4Address(x) == ip) if not wildcard else covers(x, ip, wildcard)
                 if hit:
                     out.append(sym)
                     break
@@ -439,7 +447,8 @@ def main(tier: str, seed: int) -> int:
     n_blocked = n_open_changed = n_open = 0
     errors: List[str] = []
     for ci, st in enumerate(cfgs):
-        net = Net(st)
+        noncanon = bool(ci % 2)
+        net = Net(st, noncanon)
         game = net.build()
         net.apply_faults(game)
         lists = net.read_lists()
@@ -457,7 +466,7 @@ def main(tier: str, seed: int) -> int:
         walks.net = None
         errors += log
         # idle twin
-        net2 = Net(st)
+        net2 = Net(st, noncanon)
         game2 = net2.build()
         net2.apply_faults(game2)
         random.seed(seed + ci)
